@@ -1111,6 +1111,22 @@ pub fn c08(cfg: &Config, tr: &Trace, an: &Analysis, out: &mut Vec<Violation>) {
             ));
         }
     }
+    // "... and the run ends with run-Finished": a fail-fast cut (final failure or parser
+    // error) that leaves the stream open for ever does not close cleanly
+    if !tr.ended
+        && (an.first_final_failure.is_some() || any_err)
+        && tr.anomalies.iter().any(|a| matches!(a, Anomaly::Stuck { .. } | Anomaly::IdleSpin(_) | Anomaly::PollHorizon))
+    {
+        out.push(v(
+            "C08",
+            "run-never-finished",
+            format!(
+                "fail-fast: after the {} the stream neither ends nor emits run-Finished ({:?})",
+                if any_err { "parser error" } else { "final failure" },
+                tr.anomalies
+            ),
+        ));
+    }
     if tr.ended {
         let fins: Vec<usize> = tr
             .events
@@ -1371,6 +1387,14 @@ fn norm_reason(r: &str) -> String {
 
 // ------------------------------------------------------------------------ C10
 
+fn ev_short(e: &ScEv) -> String {
+    match e {
+        ScEv::Step(bg, text, _, _) => format!("{}('{text}') Failed", if *bg { "Background" } else { "Step" }),
+        ScEv::Hook(k, _) => format!("Hook({k:?}) Failed"),
+        o => format!("{o:?}"),
+    }
+}
+
 pub fn c10(cfg: &Config, tr: &Trace, an: &Analysis, out: &mut Vec<Violation>) {
     let _ = (cfg, an);
     for a in &tr.anomalies {
@@ -1390,6 +1414,41 @@ pub fn c10(cfg: &Config, tr: &Trace, an: &Analysis, out: &mut Vec<Violation>) {
                 "C10",
                 "payload-lost",
                 format!("{}: the Failed event does not carry the panic payload", te.ev.short()),
+            ));
+            break;
+        }
+    }
+    // "... becomes the *corresponding* Failed event": a failing step is reported on that
+    // step, as the kind it is (background or scenario step), a failing hook as that hook
+    for l in &tr.log {
+        let LogKind::Exit { key, inv, outcome } = &l.kind else { continue };
+        if !outcome.is_fail() || *outcome == crate::hs::Outcome::PanicStr {
+            continue; // (the &str payload is a constant: not attributable)
+        }
+        let needle = format!("{key}#{inv}");
+        let hit = tr.events.iter().find_map(|te| match te.ev.scenario().map(|x| x.2) {
+            Some(ev @ ScEv::Step(_, _, _, StepEv::Failed(p, _))) if p.contains(&needle) => Some(ev),
+            Some(ev @ ScEv::Hook(_, HookEv::Failed(p, _))) if p.contains(&needle) => Some(ev),
+            _ => None,
+        });
+        let Some(ev) = hit else { continue };
+        let ok = match ev {
+            ScEv::Step(bg, text, _, _) => {
+                let want_bg = key.starts_with("bg ") || key.starts_with("rbg ");
+                (key.starts_with("step ") || want_bg) && *bg == want_bg && text == key
+            }
+            ScEv::Hook(k, _) => {
+                (key.starts_with("before ") && *k == crate::canon::HookKind::Before)
+                    || (key.starts_with("after ") && *k == crate::canon::HookKind::After)
+            }
+            _ => true,
+        };
+        if !ok {
+            out.push(v(
+                "C10",
+                "wrong-failed-event",
+                format!("the panic of {key}#{inv} is reported by {}, not by the Failed event of that {}", ev_short(ev),
+                    if key.starts_with("before ") || key.starts_with("after ") { "hook" } else { "step (background steps as Background, scenario steps as Step)" }),
             ));
             break;
         }
